@@ -203,7 +203,7 @@ pub proof fn lemma_log_range(segs: Seq<Segment>, lo: int, hi: int)
     let pre = log_upto(segs, lo); let rest = log_upto(segs.subrange(hi, n), n - hi);
     assert(l == (pre + dl) + rest);
     assert(pre.len() == segs[lo].start_offset - f);
-    assert(dl =~= l.subrange(pre.len() as int, pre.len() + dl.len()));
+    assert(dl =~= l.subrange(pre.len() as int, (pre.len() + dl.len()) as int));
 }
 
 // ---- consequences of read_wf ----
